@@ -3,21 +3,25 @@ package gen
 
 import (
 	"math"
+	"strings"
 
 	"verif/bt/drive"
 	"verif/bt/model"
 	"verif/common"
 )
 
+// BigVal is a value much larger than any buffer-size constant in the code under test.
+var BigVal = strings.Repeat("0123456789abcdef", 200)
+
 var (
-	Keys      = []string{"a", "a\x00", "a\x00\x00", "ab", "b", "\x00", "\xff", "a\xff"}
-	Fams      = []string{"f1", "f2"} // families of the schema
+	Keys       = []string{"a", "a\x00", "a\x00\x00", "ab", "b", "\x00", "\xff", "a\xff"}
+	Fams       = []string{"f1", "f2"} // families of the schema
 	UnknownFam = "zz"
-	Quals     = []string{"", "q", "q\x00", "\xff", "r"}
-	Vals      = []string{"", "v", "w1", "\x00\xff\n", "value-three", "\xe4\xf6"}
-	GoodTS    = []int64{0, 1000, 2000, 3000, model.MaxValidTS}
-	BadTS     = []int64{-2, 1500, math.MaxInt64, -1000, 999}
-	BaseClock = int64(1_700_000_000_000_000) // microseconds
+	Quals      = []string{"", "q", "q\x00", "\xff", "r"}
+	Vals       = []string{"", "v", "w1", "\x00\xff\n", "value-three", "\xe4\xf6", BigVal}
+	GoodTS     = []int64{0, 1000, 2000, 3000, model.MaxValidTS}
+	BadTS      = []int64{-2, 1500, math.MaxInt64, -1000, 999}
+	BaseClock  = int64(1_700_000_000_000_000) // microseconds
 )
 
 type Opts struct {
